@@ -136,6 +136,49 @@ func c17Body(c *ev.Ctx) {
 			c.Violation("nondeterministic|"+k, fmt.Sprintf("extraction at %s produced %d different texts across seeds/processes", k, len(m)), nil)
 		}
 	}
+	// in-process histories: extraction must be a function of (depth, batch) only, whatever was compiled or
+	// extracted earlier in the same process (deeper, shallower, other batch sizes, the circuits themselves)
+	{
+		DB := fmt.Sprintf("%d,%d", D, B)
+		hists := []string{
+			"lean:-:" + fmt.Sprintf("%d,%d", D+1, B) + ";lean:-:" + DB,
+			"lean:-:2,1;lean:-:" + DB + ";lean:-:" + DB,
+			"lean:-:" + fmt.Sprintf("%d,%d", D, B+1) + ";lean:-:3,2;lean:-:" + DB,
+			"build:insertion:" + fmt.Sprintf("%d,1", D+1) + ";build:deletion:3,2;lean:-:" + DB,
+		}
+		if !quick {
+			hists = append(hists, "lean:-:"+DB+";build:deletion:"+fmt.Sprintf("%d,%d", D+1, B+1)+";lean:-:"+DB, "build:insertion:32,1;lean:-:"+DB, "lean:-:1,1;lean:-:31,1;lean:-:2,7;lean:-:"+DB)
+		}
+		houts := make([]*mapOut, len(hists))
+		par.For(len(hists), func(i int) {
+			o, e := runMapChild(&mapRun{What: "hist", Mode: "-", D: 0, B: 0, Seed: 3, Procs: 16, Extra: []string{hists[i]}})
+			if e != nil {
+				c.HarnessError("%v", e)
+			}
+			houts[i] = o
+		}, nil)
+		for i, o := range houts {
+			if o == nil {
+				continue
+			}
+			steps := strings.Split(hists[i], ";")
+			for k, dg := range o.Digests {
+				if !strings.HasSuffix(steps[k], ":"+DB) || !strings.HasPrefix(steps[k], "lean") {
+					continue
+				}
+				if dg != hex.EncodeToString(cSum[:]) {
+					what := "a different model"
+					if strings.HasPrefix(dg, "error") {
+						what = dg
+					} else if dg == "e3b0c44298fc1c149afbf4c8996fb92427ae41e4649b934ca495991b7852b855" {
+						what = "an EMPTY model"
+					}
+					c.Violation("history-dependent-extraction", fmt.Sprintf("ExtractLean(%d,%d) as step %d of the in-process history [%s] gives %s than the committed one", D, B, k+1, hists[i], what), mapRun{What: "hist", Mode: "-", Seed: 3, Procs: 16, Extra: []string{hists[i]}})
+				}
+			}
+		}
+		c.Set("in_process_extraction_histories", int64(len(hists)))
+	}
 	// CLI path
 	cliOut := filepath.Join(scratchDir(), "cli-extracted.lean")
 	res, err := runCLI(nil, 10*time.Minute, "extract-circuit", "--output", cliOut, "--tree-depth", fmt.Sprint(D), "--batch-size", fmt.Sprint(B))
